@@ -26,6 +26,7 @@ type V struct {
 	Items []*V   // L heads, A elements, H values
 	Tail  *V     // L: tail (K=='N' for a proper list)
 	Keys  []*V   // H: keys (S or Y)
+	NoEnv bool   // A: the array does not carry its environment (SexpArray.Env == nil): it ignores env.Pretty
 }
 
 // ---------- to Sexp -----------------------------------------------------------
@@ -58,6 +59,9 @@ func (v *V) sexp(env *zygo.Zlisp) zygo.Sexp {
 		xs := make([]zygo.Sexp, len(v.Items))
 		for i, x := range v.Items {
 			xs[i] = x.sexp(env)
+		}
+		if v.NoEnv {
+			return &zygo.SexpArray{Val: xs} // what a Go host program writing &SexpArray{} gets
 		}
 		return &zygo.SexpArray{Val: xs, Env: env}
 	case 'H':
@@ -177,7 +181,11 @@ func (v *V) canon(input bool) string {
 		return sb.String()
 	case 'A':
 		var sb strings.Builder
-		fmt.Fprintf(&sb, "A %d", len(v.Items))
+		if v.NoEnv && input {
+			fmt.Fprintf(&sb, "a %d", len(v.Items))
+		} else {
+			fmt.Fprintf(&sb, "A %d", len(v.Items))
+		}
 		for _, x := range v.Items {
 			sb.WriteString(" " + x.canon(input))
 		}
